@@ -306,6 +306,54 @@ fn data_number_faults(orig: &[u8], dense: bool) -> Vec<(String, Vec<u8>)> {
     out
 }
 
+/// Faults of unusual size or numeric content rather than of local shape: very long runs of empty lines inside each header
+/// section (legal: empty lines are skipped), a very long list of GV-off patterns, and question patterns whose numeric
+/// fields sit at the ends of the number ranges of the label format (255, 127, -128, "25?", "99?" …).
+fn bulk_faults(orig: &[u8]) -> Vec<(String, Vec<u8>)> {
+    let dp = data_pos(orig);
+    let header = String::from_utf8_lossy(&orig[..dp]).to_string();
+    let mut out = Vec::new();
+    for sec in ["[GLOBAL]\n", "[STREAM]\n", "[POSITION]\n"] {
+        if let Some(at) = header.find(sec) {
+            for n in [3_000usize, 2_000_000] {
+                let mut b = orig[..at + sec.len()].to_vec();
+                b.extend(std::iter::repeat(b'\n').take(n));
+                b.extend(&orig[at + sec.len()..]);
+                out.push((format!("{} empty lines after {}", n, sec.trim()), b));
+            }
+        }
+    }
+    let lines: Vec<&str> = header.lines().collect();
+    if let Some(gi) = lines.iter().position(|l| l.starts_with("GV_OFF_CONTEXT:")) {
+        let many = format!("GV_OFF_CONTEXT:{}", vec!["\"*-sil+*\""; 200_000].join(","));
+        out.push(("GV_OFF_CONTEXT with 200000 patterns".into(), apply_header(orig, &[HeaderEdit::Replace(gi, many)])));
+        for pat in NUMERIC_PATTERNS {
+            out.push((format!("GV_OFF_CONTEXT pattern {}", pat), apply_header(orig, &[HeaderEdit::Replace(gi, format!("GV_OFF_CONTEXT:\"{}\"", pat))])));
+        }
+    }
+    // the first question of the first tree block asks one of the numeric patterns instead
+    let parts = crate::gen::cond::split_blocks(orig);
+    let order: Vec<usize> = (0..parts.blocks.len()).collect();
+    if let Some((bi, _)) = parts.blocks.iter().enumerate().find(|(_, (li, _, _))| parts.keys[*li].contains("TREE")) {
+        let text = String::from_utf8_lossy(&parts.blocks[bi].2).to_string();
+        if let Some(line) = text.lines().find(|l| l.starts_with("QS ")) {
+            if let (Some(open), Some(close)) = (line.find('{'), line.rfind('}')) {
+                for pat in NUMERIC_PATTERNS {
+                    let nl = format!("{}{{ \"{}\" }}{}", &line[..open], pat, &line[close + 1..]);
+                    let mut p2 = crate::gen::cond::Parts { head: parts.head.clone(), keys: parts.keys.clone(), blocks: parts.blocks.clone() };
+                    p2.blocks[bi].2 = text.replacen(line, &nl, 1).into_bytes();
+                    out.push((format!("first question of {} asks {}", parts.keys[parts.blocks[bi].0], pat), crate::gen::cond::assemble(&p2, &order, false)));
+                }
+            }
+        }
+    }
+    out
+}
+const NUMERIC_PATTERNS: [&str; 26] = [
+    "*/A:127+*", "*/A:-128+*", "*/A:12?+*", "*/A:-12?+*", "*/A:-?+*", "*/A:99?+*", "*/A:128+*", "*/A:-129+*", "*+255+*", "*+25?+*", "*+99?+*", "*/F:255_*", "*/F:25?_*", "*/F:26?_*", "*/F:99?_*", "*/F:256_*",
+    "*_255#*", "*_25?#*", "*/E:255_*", "*/E:25?_*", "*/K:255+*", "*/K:99?+*", "*-255", "*-25?", "*/F:99999999999999999999_*", "*/A:-0+*",
+];
+
 /// The full, deterministic fault list for one base file: (name, bytes). Built lazily by index.
 pub struct FaultSet {
     pub orig: Vec<u8>,
@@ -327,6 +375,7 @@ impl FaultSet {
         let swaps = swap_faults(&orig);
         let mut tokens = token_faults(&orig, dense);
         tokens.extend(data_number_faults(&orig, dense));
+        tokens.extend(bulk_faults(&orig));
         let mut bytes = Vec::new();
         // non-UTF-8 / NUL bytes in each header section
         for pos in [2usize, 10, dp / 4, dp / 2, 3 * dp / 4, dp - 10, dp - 2] {
@@ -493,7 +542,7 @@ pub fn child(args: &[String]) -> i32 {
 
 pub fn run(tier: Tier) -> i32 {
     let rep = Report::new("C18", tier, "fault_enumeration");
-    rep.set_rule("fault enumeration on 6 generated voice files (about 2-4 kB: 2/3 streams, GV on/off, single-leaf and 3-leaf trees, quoted/unquoted leaves) and the bundled voice: singles = truncation (every byte offset on generated files; every section/range boundary +-1 and a 64-point lattice on V0), every header number replaced by each of 17 values (incl. non-ASCII Unicode digits), every header line deleted/duplicated/emptied, every range inverted, every pair of ranges swapped, tree/question/window tokens renamed or removed (every occurrence on generated files), every number inside window rows (and, on generated files, inside tree text) replaced by each of {0, 4e18, 1e12, a 20-digit number, -1} with the ranges rewritten to match, every tree's brace block emptied or cut down to its first node line, the duration tree replaced by a ladder of 40 diamonds (a DAG with 2^40 paths), every text byte of generated files replaced by each of 9 bytes, NUL/0xFF/partial-UTF-8 bytes in every header section, PDF count words overwritten; doubles (thorough; first generated file in quick) = all pairs of reduced header faults on different lines, reduced header fault x truncation (stride 7), reduced header fault x token fault; each case loaded via the real loader + VoiceSet + Condition::load_model in a child process (RLIMIT_AS 3 GiB, 90 s per case); distinct = distinct fault; non-trivial = faulted bytes differ from the base");
+    rep.set_rule("fault enumeration on 6 generated voice files (about 2-4 kB: 2/3 streams, GV on/off, single-leaf and 3-leaf trees, quoted/unquoted leaves) and the bundled voice: singles = truncation (every byte offset on generated files; every section/range boundary +-1 and a 64-point lattice on V0), every header number replaced by each of 17 values (incl. non-ASCII Unicode digits), every header line deleted/duplicated/emptied, every range inverted, every pair of ranges swapped, tree/question/window tokens renamed or removed (every occurrence on generated files), every number inside window rows (and, on generated files, inside tree text) replaced by each of {0, 4e18, 1e12, a 20-digit number, -1} with the ranges rewritten to match, every tree's brace block emptied or cut down to its first node line, the duration tree replaced by a ladder of 40 diamonds (a DAG with 2^40 paths), runs of 3000 and 2000000 empty lines inside each header section, 200000 GV-off patterns, 26 question patterns with numeric fields at the ends of their ranges (255, 127, -128, 25?, 99?, ...) as GV-off pattern and as first tree question, every text byte of generated files replaced by each of 9 bytes, NUL/0xFF/partial-UTF-8 bytes in every header section, PDF count words overwritten; doubles (thorough; first generated file in quick) = all pairs of reduced header faults on different lines, reduced header fault x truncation (stride 7), reduced header fault x token fault; each case loaded via the real loader + VoiceSet + Condition::load_model in a child process (RLIMIT_AS 3 GiB, 90 s per case); distinct = distinct fault; non-trivial = faulted bytes differ from the base");
     rep.assume("at most two simultaneous faults; V0's binary PDF payload is only truncated and overwritten at its count words");
     let b = bases();
     let outcomes: Mutex<BTreeMap<String, (u64, String)>> = Mutex::new(BTreeMap::new());
